@@ -29,12 +29,26 @@ func topIDs(idx comet.VectorIndex, q []float32, k int, nprobes int, useNP bool) 
 }
 
 func runC15(r *ev.Run) {
-	r.Rule = "case = one data set of 3000 i.i.d. N(0,1)^16 points + 100 queries (seed-derived), one metric, one approximate kind built through the public API exactly as a user would (Train(points) then Add in generation or shuffled order); " +
+	r.Rule = "case = one data set of about 3000 (exactly 3000, or 2701..3299 and no round number) i.i.d. N(0,1)^16 points + 100 queries (seed-derived), one metric, one approximate kind built through the public API exactly as a user would (Train(points) then Add in generation or shuffled order); " +
 		"measured: recall@10 and true-NN-in-top-10 against FlatIndex on the same data, IVF also at full probe, and recall@10/self-recall when querying with the stored vectors of the first vs the last inserted tenth; " +
-		"compared with the floors stated in C15; non-trivial = every case (3000 points, 100 queries actually searched); distinct by (kind, metric, data seed, order)"
+		"compared with the floors stated in C15; non-trivial = every case (all points indexed, 100 queries actually searched); distinct by (kind, metric, data seed, order)"
 	r.Assumptions = []string{"FlatIndex is the exact reference (itself monitored by C01)", "floors are the property's own (HNSW 0.9, IVF 0.4 / 1.0 full probe, PQ and IVFPQ 0.5 with top-1-in-10 >= 0.85, first/last tenth within 0.1)"}
 	nSets := r.Pick(2, 8)
-	const N, D, Q, K = 3000, 16, 100, 10
+	const D, Q, K = 16, 100, 10
+	// "about 3000 points": every even data set has exactly 3000, every odd one a seed-derived size in 2701..3299 that is
+	// no multiple of 1000, 256 or 100 (work split into chunks, bulk thresholds and "last partial block" paths)
+	sizeOf := func(set int) int {
+		if set%2 == 0 {
+			return 3000
+		}
+		rg := r.Rng("dataset-size", set)
+		for {
+			n := 2701 + rg.IntN(599)
+			if n%1000 != 0 && n%256 != 0 && n%100 != 0 {
+				return n
+			}
+		}
+	}
 	type job struct {
 		kind   string
 		metric comet.DistanceKind
@@ -52,6 +66,7 @@ func runC15(r *ev.Run) {
 	r.CasesParallel("recall", len(jobs), 12, func(ci int, _ *rand.Rand) {
 		j := jobs[ci]
 		rng := r.Rng("dataset", j.set) // the same data for every kind of a set
+		N := sizeOf(j.set)
 		pts := make([][]float32, N)
 		for i := range pts {
 			pts[i] = make([]float32, D)
@@ -73,7 +88,7 @@ func runC15(r *ev.Run) {
 		if j.shuf {
 			rng.Shuffle(N, func(a, b int) { order[a], order[b] = order[b], order[a] })
 		}
-		desc := fmt.Sprintf("%s %s set=%d shuffled=%v", j.kind, j.metric, j.set, j.shuf)
+		desc := fmt.Sprintf("%s %s set=%d n=%d shuffled=%v", j.kind, j.metric, j.set, N, j.shuf)
 		fail := func(sig, what string) {
 			r.ViolationAt("recall", ci, sig, desc+": "+what, map[string]any{"kind": j.kind, "metric": j.metric, "dataset": j.set, "shuffled": j.shuf, "n": N, "dim": D, "queries": Q})
 		}
